@@ -89,7 +89,6 @@ Proof.
 Qed.
 
 Definition kv := (pystr * option value)%type.
-Definition kv_eqb (a b : kv) : bool := pystr_eqb (fst a) (fst b) && ovalue_eqb (snd a) (snd b).
 Lemma kv_eqb_iff a b : kv_eqb a b = true <-> a = b.
 Proof.
   destruct a as [k v], b as [k' v']. unfold kv_eqb. cbn [fst snd].
